@@ -11,15 +11,15 @@ from __future__ import annotations
 
 import numpy as np
 
-from .. import gens, rt, sel
+from .. import forms, gens, rt, sel
 from ..common import Skip, brief
 
 ID = "C07"
 CASES = {"quick": 5000, "thorough": 50000}
 FLOOR = {"quick": 3500, "thorough": 35000}
 FLOOR_COUNTERS = {
-    "quick": {"picks_judged": 12000, "stale_score_picks": 3000, "residual_checks": 3000, "relation_fits": 2000, "estimators_with_a_past": 1000, "small_unit_cases": 300},
-    "thorough": {"picks_judged": 90000, "stale_score_picks": 10000, "residual_checks": 15000, "relation_fits": 10000, "estimators_with_a_past": 10000, "small_unit_cases": 3000},
+    "quick": {"configured_not_by_constructor": 2000, "non_default_containers": 2000, "integer_typed_inputs": 300, "picks_judged": 12000, "stale_score_picks": 3000, "residual_checks": 3000, "relation_fits": 2000, "estimators_with_a_past": 1000, "small_unit_cases": 300},
+    "thorough": {"configured_not_by_constructor": 20000, "non_default_containers": 20000, "integer_typed_inputs": 3000, "picks_judged": 90000, "stale_score_picks": 10000, "residual_checks": 15000, "relation_fits": 10000, "estimators_with_a_past": 10000, "small_unit_cases": 3000},
 }
 RULE = (
     "case = (CUR | PCov-CUR) x (feature | sample), matrix family with rank above the request, k in {1,2,3}, mixing in "
@@ -78,6 +78,13 @@ def gen(rng, tier, index):
     past = None
     if rng.random() < 0.3:  # the estimator was fitted before: other data of the same shape, another request
         past = {"X": rng.normal(size=X.shape) * unit, "y": None if y is None else rng.normal(size=len(X)), "n": int(rng.integers(1, max(2, min(N, rank - 1)) + 1))}
+    if rng.random() < 0.12 and float(np.abs(X).max()) > 0:  # whole-number data (counts, grid indices) with an integer dtype
+        X = np.round(X / float(np.abs(X).max()) * 40.0)
+        spec["xint"] = gens.pick(rng, ("int64", "int32"))
+    # the same configuration and the same numbers through another public route / container
+    spec["how"] = gens.pick(rng, forms.CONFIGURE)
+    spec["xform"] = gens.pick(rng, forms.PRESENT)
+    spec["yform"] = gens.pick(rng, forms.PRESENT)
     return {"spec": spec, "X": X, "y": y, "kind": kind, "unit": unit, "past": past}
 
 
@@ -173,6 +180,12 @@ def _judge_fit(spec, X, y, est, tr, j, judge_scores=True):
 
 def run(case, j):
     spec, X, y = case["spec"], case["X"], case["y"]
+    if spec.get("how", "ctor") != "ctor":
+        j.note("configured_not_by_constructor")
+    if spec.get("xform", "C") != "C":
+        j.note("non_default_containers")
+    if spec.get("xint"):
+        j.note("integer_typed_inputs")
     axis = sel.axis_of(spec)
     kw = spec["kw"]
     j.tag(f"{spec['dir']}:{spec['cls']}", f"data:{case['kind']}", f"re:{kw['recompute_every']}", f"k:{kw['k']}", f"mixing:{kw.get('mixing')}")
